@@ -7,7 +7,7 @@ def run_history(ctx, attached, ops, checks, tag, extra_free=(), prelinked=False)
     d = ctx.get_driver()
     u = D.Universe(attached, extra_free, prelinked)
     ref = D.Ref(u)
-    d.call('dom_init', vlib.sx_show(u.snapshot()))
+    init_checked(ctx, d, u, attached, tag)
     hist = []
     for i, op in enumerate(ops):
         if not D.legal(u, op): break
@@ -20,6 +20,7 @@ def run_history(ctx, attached, ops, checks, tag, extra_free=(), prelinked=False)
         m = d.call('dom_step', osx)
         hist.append(op)
         mstat = m[0]
+        ctx.bump('step side conditions (op_okb, keeps_topb) ' + ('hold' if m[2] == '1' else 'do not hold'))
         ctx.corr('DOM outcome ' + tag, hist, mstat, out)
         mh = D.canon_model_heap(m[1]); rh = snap
         if mh[0] != rh[0]:
@@ -35,6 +36,17 @@ def run_history(ctx, attached, ops, checks, tag, extra_free=(), prelinked=False)
             chk(u, ref, list(hist), op, out, exp)
         ctx.bump('op=' + op[0]); ctx.bump('outcome=' + (out if out == 'Ok' else out[1]))
     return u
+
+def init_checked(ctx, d, u, attached, tag):
+    """start the model from the snapshot of the real nodes; the model's executable checkers (sound: C08_checked_start,
+    C09_checked_start, C09_checked_complete) must accept it, so that the theorems about every history apply to this one"""
+    snap = u.snapshot()
+    r = d.call('dom_init', vlib.sx_show(snap))
+    ctx.corr('the starting snapshot is structurally consistent (wf_ok) ' + tag, snap if r[0] != '1' else None, r[0], '1')
+    if attached:
+        ctx.corr('the lookups of the starting snapshot agree with its tree (idx_ok) ' + tag, snap if r[1] != '1' else None, r[1], '1')
+        ctx.corr('every registrable style of the starting snapshot is registered (comp_ok) ' + tag, snap if r[2] != '1' else None, r[2], '1')
+    return snap
 
 def working_ids(u, attached):
     """a small working set: 3 elements + 2 text nodes (+ the container when attached)"""
